@@ -23,7 +23,7 @@ contract(W + "sample_cell", "C18", model="R", returns="any",
              "implies(draw1 <= self._table[draw0][0].rate, same(result, self._table[draw0][0].item))",
              "implies(draw1 > self._table[draw0][0].rate, self._table[draw0][1] is not None and "
              "same(result, self._table[draw0][1].item))"],
-         canary="same(result, self._table[0][0].item)",
+         canary="same(result, self._table[0][0].item)", ghost={"draws": ["choice", "uniform"]},
          note="no IndexError: a one-share row has the full mean as its rate, so the second share is never asked for")
 
 # a share with zero mass is never selected - for the WHOLE closed range of the draw
@@ -40,8 +40,20 @@ contract(W + "total_rate", "C18", model="R", returns="float", ensures=["result =
 BUILD_GEN = ("def gen(rng):\n"
              "    from jellyfysh.event_handler.walker import WalkerItem\n"
              "    n = rng.choice([1, 2, 3, 4, 5, 7, 12])\n"
-             "    pool = rng.choice([[0.0, 1.0, 3.0], [1.0], [0.5, 0.25, 2.0, 0.0, 7.5, 1e-6], [1.0, 1.0, 2.0], [0.0, 0.0, 5.0, 1e3]])\n"
-             "    rates = [rng.choice(pool) for _ in range(n)]\n"
+             "    mode = rng.randrange(5)\n"
+             "    if mode == 0:\n"
+             "        pool = rng.choice([[0.0, 1.0, 3.0], [1.0], [0.5, 0.25, 2.0, 0.0, 7.5, 1e-6], [1.0, 1.0, 2.0], [0.0, 0.0, 5.0, 1e3]])\n"
+             "        rates = [rng.choice(pool) for _ in range(n)]\n"
+             "    elif mode == 1:    # equal rates: the float mean may round below or above the common rate\n"
+             "        r = rng.choice([0.7, 0.1, 0.3, 1.0 / 3.0, 2.2, 1e-7, 123456.789, rng.uniform(0.01, 10.0)])\n"
+             "        rates = [r] * n\n"
+             "    elif mode == 2:\n"
+             "        rates = [rng.uniform(0.0, 10.0) for _ in range(n)]\n"
+             "    elif mode == 3:    # widely differing magnitudes\n"
+             "        rates = [10.0 ** rng.uniform(-9, 9) for _ in range(n)]\n"
+             "    else:              # several items exactly at the mean, some zeros\n"
+             "        r = rng.choice([0.7, 1.0, 0.3])\n"
+             "        rates = [rng.choice([r, r, 0.0, 2 * r]) for _ in range(n)]\n"
              "    if sum(rates) == 0:\n"
              "        rates[0] = 1.0\n"
              "    return {'walker_items': [WalkerItem(('cell', i), r) for i, r in enumerate(rates)], 'rates': list(rates)}\n")
